@@ -111,16 +111,16 @@ struct Encoding<Variant<Ts...>> : EncodingIO<Variant<Ts...>> {
   template <typename Reader>
   static constexpr Status<void> ReadPayload(EncodingByte /*prefix*/,
                                             Type* value, Reader* reader) {
-    std::int32_t type = 0;
-    auto status = Encoding<std::int32_t>::Read(&type, reader);
+    std::int64_t type = 0;
+    auto status = Encoding<std::int64_t>::Read(&type, reader);
     if (!status) {
       return status;
     } else if (type < Type::kEmptyIndex ||
-               type >= static_cast<std::int32_t>(sizeof...(Ts))) {
+               type >= static_cast<std::int64_t>(sizeof...(Ts))) {
       return ErrorStatus::UnexpectedVariantType;
     }
 
-    value->Become(type);
+    value->Become(static_cast<std::int32_t>(type));
 
     return value->Visit([reader](auto&& element) {
       using Element = typename std::decay<decltype(element)>::type;
